@@ -609,6 +609,42 @@ fn run_error_trace(ops: &[Op]) {
     let last = ops.len() - 1;
     let depth = (ops[0].1 % 4) as usize;
     let pre = (ops[0].2.unsigned_abs() % 4) as usize;
+    if ops[0].0 % 4 == 3 {
+        // unbounded direct recursion through one call card: main -> f1 -> f1 -> ..; the run ends in CallStackOverflow and
+        // every active call must appear in the trace
+        let functions = vec![
+            ("main".to_string(), Function::default().with_cards(vec![Card::call_function("f1", vec![])])),
+            ("f1".to_string(), Function::default().with_cards({ let mut c: Vec<Card> = (0..pre).map(|i| Card::set_global_var("p", Card::scalar_int(i as i64))).collect(); c.push(Card::call_function("f1", vec![])); c })),
+        ];
+        let module = Module { functions, ..Default::default() };
+        let program = compile(module.clone(), None).unwrap();
+        let mut vm = Vm::new(()).unwrap().with_max_iter(1_000_000);
+        let err = match vm.run(&program) { Err(e) => e, Ok(_) => fail("error_trace", ops, last, "unbounded recursion ran to completion".into()) };
+        let calls = err.trace.iter().filter(|t| module.get_card(&t.index).map(|c| matches!(&c.body, CardBody::Call(j) if j.function_name == "f1")).unwrap_or(false)).count();
+        if calls < 32 { fail("error_trace", ops, last, format!("{:?} after unbounded recursion: the trace names only {calls} call cards of the active chain ({} entries)", err.payload, err.trace.len())); }
+        return;
+    }
+    if ops[0].0 % 4 == 2 {
+        // a timeout that hits the conditional jump of a control-flow card must be traced to that card, not to its body
+        let kind = ops[0].1 % 4;
+        let ctl: Card = match kind {
+            0 => CardBody::While(Box::new([Card::scalar_int(1), Card::scalar_int(2)])).into(),
+            1 => CardBody::IfTrue(Box::new([Card::scalar_int(1), Card::scalar_int(2)])).into(),
+            2 => CardBody::IfFalse(Box::new([Card::scalar_int(0), Card::scalar_int(2)])).into(),
+            _ => CardBody::IfElse(Box::new([Card::scalar_int(1), Card::scalar_int(2), Card::scalar_int(3)])).into(),
+        };
+        let mut cards: Vec<Card> = (0..pre).map(|i| Card::set_global_var("p", Card::scalar_int(i as i64))).collect();
+        cards.push(ctl);
+        let module = Module { functions: vec![("main".to_string(), Function::default().with_cards(cards))], ..Default::default() };
+        let program = compile(module.clone(), None).unwrap();
+        // every `set_global p i` card is two instructions, the condition one more: the next one is the conditional jump
+        let mut vm = Vm::new(()).unwrap().with_max_iter(2 * pre as u64 + 1);
+        let err = match vm.run(&program) { Err(e) => e, Ok(_) => fail("error_trace", ops, last, "the budget was not exhausted".into()) };
+        let card = err.trace.first().and_then(|t| module.get_card(&t.index).ok());
+        let ok = match (kind, card.map(|c| &c.body)) { (0, Some(CardBody::While(_))) | (1, Some(CardBody::IfTrue(_))) | (2, Some(CardBody::IfFalse(_))) | (3, Some(CardBody::IfElse(_))) => true, _ => false };
+        if !ok { fail("error_trace", ops, last, format!("{:?} at the conditional jump of control card kind {kind} (after {pre} cards) is traced to `{}` {:?}", err.payload, card.map(|c| c.name()).unwrap_or("<nothing>"), err.trace.first().map(|t| t.index.card_index.indices.to_vec()))); }
+        return;
+    }
     let mut failing = Card::call_native("no_such_native_function", vec![]);
     for o in &ops[1..] {
         let pad = |n: u64| -> Vec<Card> { (0..n).map(|i| Card::scalar_int(i as i64)).collect() };
